@@ -475,6 +475,12 @@ def scaled_views(ctx: Ctx, files: set[str] | None):
                         a = a.func
                     if isinstance(a, ast.Attribute) and re.search(r"_PER_", unparse(b)):
                         yield f, n, a.attr, a.attr in TRUNCATED_VIEWS
+            # a truncating view used as the key of min / max / sorted orders values that differ below the view's unit arbitrarily
+            if isinstance(n, ast.Call) and isinstance(n.func, ast.Name) and n.func.id in ("min", "max", "sorted"):
+                for k in n.keywords:
+                    if k.arg == "key":
+                        attr = k.value.attr if isinstance(k.value, ast.Attribute) else (k.value.body.func.attr if isinstance(k.value, ast.Lambda) and isinstance(k.value.body, ast.Call) and isinstance(k.value.body.func, ast.Attribute) else k.value.body.attr if isinstance(k.value, ast.Lambda) and isinstance(k.value.body, ast.Attribute) else "")
+                        yield f, n, attr, attr in TRUNCATED_VIEWS
 
 
 def _make_resolution(prop: str):
